@@ -84,9 +84,9 @@ LINEBREAKS = '\n\r\x0b\x0c\x1c\x1d\x1e\x85\u2028\u2029'
 NAME_ATOMS = ['a', 'b', 'n', ';', '=', ' ', '\\', 'é', '中', '\U0001f600', "'", ',', ':', '(', ')', '/', '?', '+', '-', '.', '_',
               '%', '&', '\t', 'name', 'filename', '; filename=', 'x=y', 'K', 'İ', '\x7f', '\xa0', 'ß', '*', '<', '>', '[', ']',
               '\\\\', '\x01', '\u200b']
-NAME_POOL = ['a', 'b', 'a', 'b', 'f;x=y', 'q;z=1.txt', 'a b', 'a\\b', 'é', '', ' ', 'name', 'a; filename=b', 'a=', '=a', ';', 'a;',
+NAME_POOL = ['a', 'b', 'a', 'b', 'a\\\\b', '\\\\srv\\x', 'n\\', '\\\\', 'f;x=y', 'q;z=1.txt', 'a b', 'a\\b', 'é', '', ' ', 'name', 'a; filename=b', 'a=', '=a', ';', 'a;',
              'a\\', ' a ', 'x=y;z', 'ключ', "a'b", 'A', 'a=b=c', 'a;;b', 'a ;b= c']
-FILENAME_POOL = ['f.txt', 'q;z=1.txt', 'a b.bin', 'C:\\dir\\f.txt', 'é.txt', 'f', 'a=b', ';', ' x ', '..\\..\\etc', 'ф.dat',
+FILENAME_POOL = ['\\\\server\\share\\x.bin', 'a\\\\b', 'dir\\', 'f.txt', 'q;z=1.txt', 'a b.bin', 'C:\\dir\\f.txt', 'é.txt', 'f', 'a=b', ';', ' x ', '..\\..\\etc', 'ф.dat',
                  'a;name=b', "it's", 'x\\', '=.=']
 CTYPE_POOL = [None, 'text/plain', 'application/octet-stream', 'image/png', 'x/y+z', 'a/b.c-d', 'text/x_y']
 BOUNDARY_SIMPLE = '-_.+\'0123456789abcXYZ'
@@ -269,6 +269,9 @@ class Rig:
                     else:
                         outs.append('ok ' + show_dict(v, multipart))
                     rig.values.append((a, v))
+                except core.Hang:        # the watchdog fired inside this access: give up at once
+                    rig.hung = True
+                    raise
                 except HTTPResponse as r:
                     outs.append('http %d' % r.status_code)
                     first = first or r
@@ -337,7 +340,7 @@ class Rig:
              max_body=None):
         """wire = the bytes on wsgi.input; returns dict(status, outs, errors, rec, values)"""
         app = self.app
-        self.accs, self.catch, self.outs, self.values = list(accs), catch, [], []
+        self.accs, self.catch, self.outs, self.values, self.hung = list(accs), catch, [], [], False
         self.rec = rec = dict(parts=[], framing=None, json='N')
         env = {'REQUEST_METHOD': 'POST', 'PATH_INFO': '/u', 'SERVER_NAME': 'x', 'SERVER_PORT': '80',
                'wsgi.url_scheme': 'http', 'wsgi.input': SchedStream(wire, sched), 'wsgi.errors': io.StringIO()}
@@ -361,6 +364,8 @@ class Rig:
         finally:
             if orig:
                 self._restore(orig)
+        if self.hung or escaped == 'Hang':
+            raise core.Hang()        # the framework's catch-all swallowed the watchdog's exception
         return dict(status=int(status[0].split()[0]) if status else None, outs=list(self.outs),
                     errors=env['wsgi.errors'].getvalue(), rec=rec, values=list(self.values), escaped=escaped)
 
